@@ -1,11 +1,192 @@
 /-
   Property C06 — monotonic resources: blocks disjoint, aligned, stable; release frees all once.
-  Property theorems only; the invariant and helper lemmas live in Babylon/Arena/Lemmas.lean.
+  Property theorems only; the invariant and helper lemmas live in Babylon/Arena/*.lean
+  (aggregated by Babylon/Arena/Lemmas.lean).
+
+  Model: Babylon/Arena/Model.lean — `ExclusiveMonotonicBufferResource` field by field, two resources
+  (`Sys`) with move-assignment and destroy/reconstruct, the page allocator and the upstream resource
+  as environment parameters.  Quantifiers of the theorems below: every operation list, every page
+  size that is a power of two ≥ sizeof(PageArray), every (bytes, alignment) with alignment a power of
+  two (bytes = 0, > page size, alignment > page size included), every allocator behaviour that
+  satisfies `SOpOK` (pages `pageSize`-aligned and disjoint from every region held by either resource,
+  upstream blocks aligned as requested and disjoint likewise).
 -/
 import Babylon.Arena.Lemmas
 
 namespace Babylon.Properties.C06
 open Babylon.Arena Babylon.Gen.Arena Babylon.Core
+
+/-! ## the invariant holds after every operation list -/
+
+/-- **arena_inv.**  Starting from two freshly configured resources, after *any* list of operations
+(allocate / register_destructor / contains / release on either resource, move-assignment between
+them, destroy + reconstruct) during which the allocators behaved as assumed, the invariant holds:
+bookkeeping chains well-formed (filled from the top, non-head arrays full, each page array inside a
+page held by itself or an older array, each oversize array at the end of the upstream block in its
+last entry, each destroy-task array a live block), ghost lists = contents of the chains, regions
+pairwise disjoint (also across the two resources), every block and array inside a held region and
+pairwise disjoint, the free range inside the newest page and untouched, both accounts exact. -/
+theorem arena_inv (pa1 ps1 up1 pa2 ps2 up2 : Nat)
+    (h1 : ∃ k, ps1 = 2 ^ k) (g1 : sizeofPageArray ≤ ps1) (h2 : ∃ k, ps2 = 2 ^ k) (g2 : sizeofPageArray ≤ ps2)
+    (ops : List SOp) (hv : ValidRun ⟨Arena.fresh pa1 ps1 up1, Arena.fresh pa2 ps2 up2⟩ ops) :
+    SysInv (runOps Sys.next ⟨Arena.fresh pa1 ps1 up1, Arena.fresh pa2 ps2 up2⟩ ops) := by
+  have h0 : SysInv ⟨Arena.fresh pa1 ps1 up1, Arena.fresh pa2 ps2 up2⟩ :=
+    ⟨inv_fresh _ _ _ h1 g1, inv_fresh _ _ _ h2 g2, by simp [regions, pageRegs, ovRegs, Arena.fresh]⟩
+  have key := runOps_invariant istep (fun p => p.2 → SysInv p.1)
+    (fun p op h hp => sys_step_inv (h hp.1) op hp.2)
+    (⟨Arena.fresh pa1 ps1 up1, Arena.fresh pa2 ps2 up2⟩, True) (fun _ => h0) ops
+  obtain ⟨e1, e2⟩ := istep_run ⟨Arena.fresh pa1 ps1 up1, Arena.fresh pa2 ps2 up2⟩ True ops
+  rw [← e1]
+  exact key (e2.mpr ⟨trivial, hv⟩)
+
+/-- the invariant is inductive: one step from *any* state satisfying it (not only reachable ones) -/
+theorem arena_inv_step (s : Sys) (hI : SysInv s) (op : SOp) (hok : SOpOK s op) : SysInv (s.next op) :=
+  sys_step_inv hI op hok
+
+/-! ## allocate -/
+
+section alloc
+variable (held : List Seg) {s : Arena} (hI : Inv s) (hsub : ∀ r ∈ regions s, r ∈ held)
+  (bytes align : Nat) (kind : Kind) (e : Env) (hal : ∃ k, align = 2 ^ k) (henv : AllocEnvOK held s bytes align e)
+include hI hsub hal henv
+
+/-- **alloc_aligned.**  The returned address is a multiple of the requested alignment (all seven
+paths, alignment above the page size included). -/
+theorem alloc_aligned : align ∣ (s.allocate bytes align kind e).2.1 :=
+  (allocate_post held hI.core hsub bytes align kind e hal henv).2
+
+/-- **alloc_in_owned.**  A non-empty block lies inside a page or an upstream block the resource
+holds after the call. -/
+theorem alloc_in_owned :
+    bytes = 0 ∨ ∃ r ∈ regions (s.allocate bytes align kind e).1,
+      Inside ⟨(s.allocate bytes align kind e).2.1, bytes⟩ r :=
+  (newest_block (allocate_inv held hI hsub bytes align kind e hal henv)
+    (allocate_post held hI.core hsub bytes align kind e hal henv).1.blocks).2.2
+
+/-- **alloc_disjoint.**  The block shares no byte with any block handed out earlier and still live
+(destroy-task arrays included). -/
+theorem alloc_disjoint : ∀ b ∈ s.blocks, Disj ⟨(s.allocate bytes align kind e).2.1, bytes⟩ b.seg :=
+  (newest_block (allocate_inv held hI hsub bytes align kind e hal henv)
+    (allocate_post held hI.core hsub bytes align kind e hal henv).1.blocks).1
+
+/-- **alloc_clear_of_bookkeeping.**  The block shares no byte with any page array, oversize array
+or destroy-task array of the resource (as they are after the call). -/
+theorem alloc_clear_of_bookkeeping :
+    (∀ a ∈ (s.allocate bytes align kind e).1.pageArrs, Disj ⟨(s.allocate bytes align kind e).2.1, bytes⟩ a.seg) ∧
+    (∀ a ∈ (s.allocate bytes align kind e).1.ovArrs, Disj ⟨(s.allocate bytes align kind e).2.1, bytes⟩ a.seg) ∧
+    (∀ a ∈ (s.allocate bytes align kind e).1.dtArrs,
+        Disj ⟨(s.allocate bytes align kind e).2.1, bytes⟩ ⟨a.addr, sizeofDtArray⟩) := by
+  have hp := (allocate_post held hI.core hsub bytes align kind e hal henv).1
+  have hI' := allocate_inv held hI hsub bytes align kind e hal henv
+  have hn := newest_block hI' hp.blocks
+  refine ⟨?_, ?_, ?_⟩
+  · intro a ha
+    exact hn.2.1 _ (List.mem_append_left _ (List.mem_map.mpr ⟨a, ha, rfl⟩))
+  · intro a ha
+    exact hn.2.1 _ (List.mem_append_right _ (List.mem_map.mpr ⟨a, ha, rfl⟩))
+  · intro a ha
+    rw [hp.frame.2.2.2.1] at ha
+    have hb : (⟨a.addr, sizeofDtArray, .dtArray⟩ : Block) ∈ s.blocks := (hI.core.dt.shape a ha).2.2
+    exact hn.1 _ hb
+
+/-- **alloc_stable** (allocate).  Blocks live before the call stay live, their memory stays held,
+nothing is returned to any allocator and no bookkeeping store touches a live user block. -/
+theorem alloc_stable : Stable s (s.allocate bytes align kind e).1 (s.allocate bytes align kind e).2.2 :=
+  allocate_stable held hI hsub bytes align kind e hal henv
+
+end alloc
+
+/-- **alloc_stable** (every operation other than `release`).  `contains` changes nothing;
+`register_destructor` may allocate a destroy-task array: same guarantees as `allocate`. -/
+theorem alloc_stable_op (held : List Seg) {s : Arena} (hI : Inv s) (hsub : ∀ r ∈ regions s, r ∈ held)
+    (op : Op) (hne : op ≠ .release) (henv : OpEnvOK held s op) : Stable s (s.step op).1 (s.step op).2 := by
+  cases op with
+  | alloc bytes align e => exact allocate_stable held hI hsub bytes align .user e henv.1 henv.2
+  | reg tag e => exact register_stable held hI hsub tag e henv
+  | contains ptr => exact ⟨fun b hb => hb, fun r hr => hr, by simp [Arena.step], by simp [Arena.step]⟩
+  | release => exact absurd rfl hne
+
+/-- **alloc_stable** (move).  Move-assignment exchanges the two resources' states wholesale: every
+live block, every held region and every registered destructor now belongs to the other resource,
+nothing is lost, duplicated, returned or written. -/
+theorem alloc_stable_move (s : Sys) (src dst : Bool) :
+    (s.step (.move src dst)).2 = [] ∧
+    ((s.next (.move src dst) = s) ∨ (s.next (.move src dst) = ⟨s.b, s.a⟩)) := by
+  have hsw : ∀ x y : Arena, moveAssign x y = (y, x) := by
+    intro x y; simp [moveAssign, c_moveSwapsUpstream]
+  cases src <;> cases dst <;> simp [Sys.next, Sys.step, Sys.get, Sys.set, hsw]
+
+/-- **alloc_disjoint / alloc_stable across resources.**  In every state satisfying the system
+invariant, no block of one resource shares a byte with a block of the other. -/
+theorem blocks_disjoint_across (s : Sys) (hI : SysInv s) :
+    ∀ x ∈ s.a.blocks, ∀ y ∈ s.b.blocks, Disj x.seg y.seg :=
+  fun _ hx _ hy => cross_blocks_disj hI.a hI.b hI.cross hx hy
+
+/-- In every state satisfying the invariant all live blocks are pairwise disjoint, clear of every
+page / oversize array, and each non-empty one lies inside a held region. -/
+theorem blocks_wellplaced {s : Arena} (hI : Inv s) :
+    (s.blocks.map Block.seg).Pairwise Disj ∧
+    (∀ b ∈ s.blocks, ∀ a ∈ arrSegs s, Disj b.seg a) ∧
+    (∀ b ∈ s.blocks, b.bytes = 0 ∨ ∃ r ∈ regions s, Inside b.seg r) := by
+  have hd := hI.core.geo.iDisj
+  simp only [items] at hd
+  refine ⟨(List.pairwise_append.mp hd).1, fun b hb a ha => block_arr_disj hI hb ha, ?_⟩
+  intro b hb
+  exact hI.core.geo.iIn b.seg (by simp only [items]; exact List.mem_append_left _ (List.mem_map.mpr ⟨b, hb, rfl⟩))
+
+/-! ## release -/
+
+/-- **release_pages_exact.**  The pages handed to `_page_allocator->deallocate`, in order, are
+exactly the pages obtained and not yet returned — each once, to the allocator it came from. -/
+theorem release_pages_exact {s : Arena} (hI : Inv s) : pageFrees s.release.2 = s.pagesHeld :=
+  release_pageFrees hI
+
+/-- **release_oversize_exact.**  The `(upstream, block, bytes, alignment)` tuples passed to
+`_upstream->deallocate`, in order, are exactly the ones recorded when the blocks were obtained —
+each once, with the size and alignment it was obtained with, to the upstream it was obtained from
+(this needs the move assignment to carry `_upstream`: `gen_move_swaps_upstream`). -/
+theorem release_oversize_exact {s : Arena} (hI : Inv s) : upFrees s.release.2 = s.ovHeld :=
+  release_upFrees hI
+
+/-- **release_destructors_once.**  The trace of `release()` splits into a first part that runs the
+registered destructors — each exactly once, newest first (LIFO) — and returns nothing, and a second
+part in which no destructor runs (where all pages and blocks are returned). -/
+theorem release_destructors_once {s : Arena} (hI : Inv s) :
+    ∃ pre post, s.release.2 = pre ++ post ∧ dtorRuns pre = s.dtors ∧ (∀ ev ∈ pre, ev.isFree = false) ∧
+      dtorRuns post = [] :=
+  release_dtors hI
+
+/-- **release_no_read_after_free.**  For any two events of the `release()` trace, if the earlier one
+returns a page or an upstream block and the later one is a bookkeeping read (`next` field, page
+entry, oversize entry, destroy task), the read does not touch the returned memory. -/
+theorem release_no_read_after_free {s : Arena} (hI : Inv s) : NoReadAfterFree s.pageSize s.release.2 :=
+  release_noRAF hI
+
+/-- **release_resets.**  After `release()` the resource is exactly a freshly configured one (all
+pointers null, both accounts zero, nothing held, nothing registered) on the same allocators — hence
+reusable: the invariant holds again (`arena_inv_step`). -/
+theorem release_resets {s : Arena} (hI : Inv s) :
+    s.release.1 = Arena.fresh s.pa s.pageSize s.up ∧ s.release.1.spaceUsed = 0 ∧ s.release.1.spaceAllocated = 0 ∧
+    Inv s.release.1 := by
+  have h := release_eq_fresh hI
+  refine ⟨h, by rw [h]; rfl, by rw [h]; rfl, ?_⟩
+  rw [h]; exact inv_fresh _ _ _ hI.core.psPow2 hI.core.psGe
+
+/-- The accounts in every state satisfying the invariant: `space_allocated` = page size × pages held
++ bytes of the upstream blocks held; `space_used` = sum of the sizes requested. -/
+theorem accounting {s : Arena} (hI : Inv s) :
+    s.spaceAllocated = s.pageSize * s.pagesHeld.length + (s.ovHeld.map (·.2.bytes)).sum ∧
+    s.spaceUsed = (s.blocks.map (·.bytes)).sum :=
+  ⟨hI.core.acctAlloc, hI.acctUsed⟩
+
+/-- The model's arithmetic `alignUp` is the source's mask expression `(x + a - 1) & -a` evaluated in
+64-bit unsigned arithmetic, for every power-of-two alignment and every address that does not
+overflow (used by `do_align`, by the rounding of `bytes` in both array placements). -/
+theorem align_mask_is_round_up (x a k : Nat) (ha : a = 2 ^ k) (hk : k ≤ 64) (hx : x + a - 1 < 2 ^ 64) :
+    (x + a - 1) &&& (2 ^ 64 - a) = alignUp x a :=
+  alignUp_eq_mask x a k ha hk hx
+
+/-! ## generated obligations (the tie to the source text) -/
 
 /-- Generated obligation: capacities and layouts of the bookkeeping structs are the ones the model
 and its proofs use; the three arrays really have `*_CAPACITY` entries and the oversize array (which
@@ -50,5 +231,47 @@ theorem gen_stmts_register_destructor :
 theorem gen_stmts_release :
     stmts_release = Skel.stmts_release ∧ stmts_destruct_all = Skel.stmts_destruct_all := by decide
 theorem gen_stmts_contains : stmts_contains = Skel.stmts_contains := by decide
+
+
+/-! ## non-vacuity -/
+
+/-- a history on 256-byte pages that takes the fast path, two page-array placements, both upstream
+paths, a destroy-task array, an over-aligned request that moves `_free_begin` past `_free_end`, a
+move, a release and a reconstruction, with a concrete allocator placement -/
+def demoOps : List SOp :=
+  [ .on false (.alloc 0 1 ⟨0, 0, 0⟩),                  -- empty resource, zero bytes: nullptr
+    .on false (.alloc 8 8 ⟨1024, 0, 0⟩),               -- new page, page array behind the block
+    .on false (.alloc 16 16 ⟨0, 0, 0⟩),                -- fast path
+    .on false (.alloc 300 64 ⟨0, 0, 65536⟩),           -- upstream, new oversize array
+    .on false (.alloc 200 512 ⟨0, 0, 131072⟩),         -- upstream, room in the array; alignment > page size
+    .on false (.reg 7 ⟨2048, 0, 0⟩),                   -- destroy-task array in a new page
+    .on false (.alloc 100 1 ⟨4096, 0, 0⟩),             -- new page, room in the page array
+    .move false true,
+    .on true (.alloc 256 256 ⟨8192, 0, 0⟩),
+    .on true .release,
+    .renew false 3 512 3,
+    .on false (.alloc 0 1 ⟨0, 0, 0⟩) ]
+
+def demoInit : Sys := ⟨Arena.fresh 0 256 0, Arena.fresh 1 128 1⟩
+
+/-- the hypotheses of `arena_inv` are satisfiable by that history … -/
+theorem demo_valid : ValidRun demoInit demoOps := ValidRunD.sound (by decide)
+
+/-- … which is not trivial: before the release the moved-to resource holds 8 blocks in 4 pages and
+2 upstream blocks, one destructor is registered, both accounts are non-zero … -/
+example : (runOps Sys.next demoInit (demoOps.take 9)).b.blocks.length = 8 ∧
+    (runOps Sys.next demoInit (demoOps.take 9)).b.pagesHeld.length = 4 ∧
+    (runOps Sys.next demoInit (demoOps.take 9)).b.ovHeld.length = 2 ∧
+    (runOps Sys.next demoInit (demoOps.take 9)).b.dtors = [7] ∧
+    (runOps Sys.next demoInit (demoOps.take 9)).b.spaceAllocated = 1024 + 688 + 200 ∧
+    (runOps Sys.next demoInit (demoOps.take 9)).b.spaceUsed = 0 + 8 + 16 + 300 + 200 + 248 + 100 + 256 := by decide
+
+/-- … and the release returns those 4 pages and 2 blocks after running the destructor. -/
+example : pageFrees ((runOps Sys.next demoInit (demoOps.take 9)).b.release.2) = [(0, 8192), (0, 4096), (0, 2048), (0, 1024)] ∧
+    upFrees ((runOps Sys.next demoInit (demoOps.take 9)).b.release.2) = [(0, ⟨131072, 200, 512⟩), (0, ⟨65536, 688, 64⟩)] ∧
+    dtorRuns ((runOps Sys.next demoInit (demoOps.take 9)).b.release.2) = [7] := by decide
+
+example : SysInv (runOps Sys.next demoInit demoOps) :=
+  arena_inv 0 256 0 1 128 1 ⟨8, rfl⟩ (by decide) ⟨7, rfl⟩ (by decide) demoOps demo_valid
 
 end Babylon.Properties.C06
